@@ -15,7 +15,8 @@ enum Op {
   I_NEW, I_APPEND, I_REMOVE, I_EXTEND, I_SET, I_GET, I_SETALL, I_REINIT,
   S_APPEND, S_APPEND_INT, S_APPEND_DBL, S_SET, S_GET, S_RESIZE, S_EXTEND, S_REINIT,
   T_NEW, T_ADD, T_APPEND_M, T_APPEND_COL, T_SET, T_GET, T_SETALL, T_COPY, T_REINIT,
-  L_APPEND, L_REINIT, OP_COUNT
+  L_APPEND, L_REINIT,
+  M_RSORT, U_INDEXOF, U_HAS, I_HAS, S_SPLIT, OP_COUNT
 };
 static const char *op_name[] = {
   "NewMatrix", "ResizeMatrix", "MatrixCopy", "MatrixAppendRow", "MatrixAppendCol", "MatrixAppendUIRow", "MatrixAppendUICol", "MatrixDeleteRowAt", "MatrixDeleteColAt", "setMatrixValue", "getMatrixValue", "getMatrixRow", "getMatrixColumn", "MatrixSet", "MatrixSort", "DelMatrix+initMatrix",
@@ -24,7 +25,8 @@ static const char *op_name[] = {
   "NewIVector", "IVectorAppend", "IVectorRemoveAt", "IVectorExtend", "setIVectorValue", "getIVectorValue", "IVectorSet", "DelIVector+initIVector",
   "StrVectorAppend", "StrVectorAppendInt", "StrVectorAppendDouble", "setStr", "getStr", "StrVectorResize", "StrVectorExtend", "DelStrVector+initStrVector",
   "NewTensor+NewTensorMatrix", "AddTensorMatrix", "TensorAppendMatrix", "TensorAppendColumn", "setTensorValue", "getTensorValue", "TensorSet", "TensorCopy", "DelTensor+initTensor",
-  "DVectorListAppend", "DelDVectorList+initDVectorList"};
+  "DVectorListAppend", "DelDVectorList+initDVectorList",
+  "MatrixReverseSort", "UIVectorIndexOf", "UIVectorHasValue", "IVectorHasValue", "SplitString"};
 
 struct OpRec { int code, a, b, c; double v; int fail_at; };  // fail_at: k-th allocation inside this op returns NULL (0 = none)
 
@@ -107,6 +109,20 @@ static void apply_op(void *a_) {
       s.d = got;
       break;
     }
+    case M_RSORT: {
+      SMat &s = p.sM[a]; if (s.col == 0 || s.row == 0) break; size_t c = n1 % s.col;
+      for (auto &r : s.d) if (r[c] != r[c]) return;
+      MatrixReverseSort(p.M[a], c);
+      if (p.M[a]->row != s.row || p.M[a]->col != s.col) { e.mismatch = "MatrixReverseSort changed the shape"; break; }
+      std::vector<std::vector<double>> got(s.row, std::vector<double>(s.col));
+      for (size_t i = 0; i < s.row; i++) for (size_t j = 0; j < s.col; j++) got[i][j] = p.M[a]->data[i][j];
+      for (size_t i = 1; i < s.row; i++) if (got[i - 1][c] < got[i][c]) e.mismatch = "MatrixReverseSort: rows not ordered (descending) by the key column";
+      auto x = s.d, y = got; auto lt = [](const std::vector<double> &u, const std::vector<double> &v) { return memcmp(u.data(), v.data(), u.size() * 8) < 0; };
+      std::sort(x.begin(), x.end(), lt); std::sort(y.begin(), y.end(), lt);
+      for (size_t i = 0; i < x.size(); i++) for (size_t j = 0; j < s.col; j++) if (!same_bits(x[i][j], y[i][j])) e.mismatch = "MatrixReverseSort: result is not a permutation of the rows";
+      s.d = got;
+      break;
+    }
     case M_REINIT: DelMatrix(&p.M[a]); initMatrix(&p.M[a]); p.sM[a] = SMat(); break;
     // ---- dvector
     case D_NEW: DelDVector(&p.D[a]); NewDVector(&p.D[a], n1); p.sD[a].assign(n1, 0.0); break;
@@ -130,6 +146,8 @@ static void apply_op(void *a_) {
     case U_GET: { if (n1 >= p.sU[a].size()) e.expect_abort = true; size_t g = getUIVectorValue(p.U[a], n1); if (n1 < p.sU[a].size() && g != p.sU[a][n1]) e.mismatch = "getUIVectorValue returned another value than was stored"; break; }
     case U_SETALL: UIVectorSet(p.U[a], n1); for (auto &x : p.sU[a]) x = n1; break;
     case U_SORT: SortUIVector(p.U[a]); std::sort(p.sU[a].begin(), p.sU[a].end()); break;
+    case U_INDEXOF: { int g = UIVectorIndexOf(p.U[a], n1); int want = -1; for (size_t k = 0; k < p.sU[a].size(); k++) if (p.sU[a][k] == n1) { want = (int)k; break; } if (g != want) e.mismatch = "UIVectorIndexOf returned another position than the first occurrence"; break; }
+    case U_HAS: { int g = UIVectorHasValue(p.U[a], n1); bool has = std::find(p.sU[a].begin(), p.sU[a].end(), n1) != p.sU[a].end(); if (g != (has ? 0 : 1)) e.mismatch = "UIVectorHasValue contradicts the contents (0 = present, 1 = absent)"; break; }
     case U_REINIT: DelUIVector(&p.U[a]); initUIVector(&p.U[a]); p.sU[a].clear(); break;
     // ---- ivector
     case I_NEW: DelIVector(&p.I[a]); NewIVector(&p.I[a], n1); p.sI[a].assign(n1, 0); break;
@@ -139,6 +157,7 @@ static void apply_op(void *a_) {
     case I_SET: setIVectorValue(p.I[a], n1, (int)op.v); if (n1 < p.sI[a].size()) p.sI[a][n1] = (int)op.v; break;
     case I_GET: { if (n1 >= p.sI[a].size()) e.expect_abort = true; int g = getIVectorValue(p.I[a], n1); if (n1 < p.sI[a].size() && g != p.sI[a][n1]) e.mismatch = "getIVectorValue returned another value than was stored"; break; }
     case I_SETALL: IVectorSet(p.I[a], (int)op.v); for (auto &x : p.sI[a]) x = (int)op.v; break;
+    case I_HAS: { int v = (int)op.v; int g = IVectorHasValue(p.I[a], v); bool has = std::find(p.sI[a].begin(), p.sI[a].end(), v) != p.sI[a].end(); if (g != (has ? 0 : 1)) e.mismatch = "IVectorHasValue contradicts the contents"; break; }
     case I_REINIT: DelIVector(&p.I[a]); initIVector(&p.I[a]); p.sI[a].clear(); break;
     // ---- strvector
     case S_APPEND: { char buf[64]; snprintf(buf, sizeof buf, "s%d_%d", op.b, op.c); StrVectorAppend(p.S[a], buf); p.sS[a].push_back(buf); break; }
@@ -148,6 +167,15 @@ static void apply_op(void *a_) {
     case S_GET: { if (p.sS[a].empty()) break; size_t i = n1 % p.sS[a].size(); char *g = getStr(p.S[a], i); if (!g || p.sS[a][i] != g) e.mismatch = "getStr returned another string than was stored"; break; }
     case S_RESIZE: StrVectorResize(p.S[a], n1); p.sS[a].assign(n1, ""); break;
     case S_EXTEND: { int c = op.c % POOL; if (c == a || c == b) break; strvector *x = StrVectorExtend(p.S[a], p.S[b]); std::vector<std::string> s = p.sS[a]; s.insert(s.end(), p.sS[b].begin(), p.sS[b].end()); DelStrVector(&p.S[c]); p.S[c] = x; p.sS[c] = s; break; }
+    case S_SPLIT: {  // "  t0;t1;...;tk  " split on ';' is appended token by token (leading/trailing blanks trimmed)
+      int k = 1 + op.b % 4; std::string line = "  "; std::vector<std::string> toks;
+      for (int q = 0; q < k; q++) { std::string t = "tok" + std::to_string(op.c + q); toks.push_back(t); line += t; if (q + 1 < k) line += ";"; }
+      line += "  ";
+      std::vector<char> buf(line.begin(), line.end()); buf.push_back(0); char sep[2] = {';', 0};
+      SplitString(buf.data(), sep, p.S[a]);
+      for (auto &t : toks) p.sS[a].push_back(t);
+      break;
+    }
     case S_REINIT: DelStrVector(&p.S[a]); initStrVector(&p.S[a]); p.sS[a].clear(); break;
     // ---- tensor
     case T_NEW: { size_t order = 1 + n1 % 3; DelTensor(&p.T[a]); NewTensor(&p.T[a], order); p.sT[a].clear(); for (size_t k = 0; k < order; k++) { NewTensorMatrix(p.T[a], k, n2, (size_t)op.v); SMat s; smat_shape(s, n2, (size_t)op.v); p.sT[a].push_back(s); } break; }
@@ -224,12 +252,12 @@ struct HCont : Harness {
       OpRec o; o.a = (int)wr.below(POOL); o.b = (int)wr.below(12); o.c = (int)wr.below(12); o.fail_at = i == fault_op ? (int)fr.range(1, 6) : 0;
       o.v = wr.chance(0.05) ? NAN : (wr.chance(0.5) ? (double)wr.range(-9, 9) : wr.uniform(-1e3, 1e3));
       std::vector<int> cands;
-      if (km) for (int c : {M_NEW, M_RESIZE, M_COPY, M_APPEND_ROW, M_APPEND_ROW, M_APPEND_COL, M_APPEND_COL, M_DEL_ROW, M_DEL_COL, M_SET, M_GET, M_GETROW, M_GETCOL, M_SETALL, M_SORT, M_REINIT}) cands.push_back(c);
+      if (km) for (int c : {M_NEW, M_RESIZE, M_COPY, M_APPEND_ROW, M_APPEND_ROW, M_APPEND_COL, M_APPEND_COL, M_DEL_ROW, M_DEL_COL, M_SET, M_GET, M_GETROW, M_GETCOL, M_SETALL, M_SORT, M_RSORT, M_REINIT}) cands.push_back(c);
       if (km && ku) for (int c : {M_APPEND_UIROW, M_APPEND_UICOL}) cands.push_back(c);
       if (kd || km || kt || kl) for (int c : {D_NEW, D_RESIZE, D_APPEND, D_APPEND, D_REMOVE, D_COPY, D_EXTEND, D_SET, D_GET, D_SETALL, D_SORT, D_REINIT}) cands.push_back(c);
-      if (ku) for (int c : {U_NEW, U_RESIZE, U_APPEND, U_APPEND, U_REMOVE, U_EXTEND, U_SET, U_GET, U_SETALL, U_SORT, U_REINIT}) cands.push_back(c);
-      if (ki) for (int c : {I_NEW, I_APPEND, I_APPEND, I_REMOVE, I_EXTEND, I_SET, I_GET, I_SETALL, I_REINIT}) cands.push_back(c);
-      if (ks) for (int c : {S_APPEND, S_APPEND, S_APPEND_INT, S_APPEND_DBL, S_SET, S_GET, S_RESIZE, S_EXTEND, S_REINIT}) cands.push_back(c);
+      if (ku) for (int c : {U_NEW, U_RESIZE, U_APPEND, U_APPEND, U_REMOVE, U_EXTEND, U_SET, U_GET, U_SETALL, U_SORT, U_INDEXOF, U_HAS, U_REINIT}) cands.push_back(c);
+      if (ki) for (int c : {I_NEW, I_APPEND, I_APPEND, I_REMOVE, I_EXTEND, I_SET, I_GET, I_SETALL, I_HAS, I_REINIT}) cands.push_back(c);
+      if (ks) for (int c : {S_APPEND, S_APPEND, S_APPEND_INT, S_APPEND_DBL, S_SET, S_GET, S_RESIZE, S_EXTEND, S_SPLIT, S_REINIT}) cands.push_back(c);
       if (kt) for (int c : {T_NEW, T_ADD, T_ADD, T_APPEND_M, T_APPEND_COL, T_SET, T_GET, T_SETALL, T_COPY, T_COPY, T_REINIT}) cands.push_back(c);
       if (kl) for (int c : {L_APPEND, L_APPEND, L_REINIT}) cands.push_back(c);
       o.code = cands[wr.below(cands.size())];
@@ -239,6 +267,7 @@ struct HCont : Harness {
         case T_NEW: o.b = (int)wr.below(3); o.c = around(); o.v = around(); break;
         case D_NEW: case D_RESIZE: case U_NEW: case U_RESIZE: case I_NEW: case S_RESIZE: o.b = around(); break;
         case U_APPEND: case U_SETALL: o.b = (int)wr.below(1000); break;
+        case U_INDEXOF: case U_HAS: o.b = (int)wr.below(12); break;
         case U_SET: o.c = (int)wr.below(1000); break;
         case D_SET: case D_GET: case U_GET: case I_GET: if (wr.chance(0.85)) o.b = (int)wr.below(4); break;  // mostly in range for small vectors
         case T_SET: case T_GET: o.v = (double)wr.below(4); o.b = (int)wr.below(5); o.c = (int)wr.below(5); break;
